@@ -365,6 +365,29 @@ class SymEx:
                                 tgt = b2
                         bi = tgt
                         continue
+                    # a bool that is `discriminant(x) == k` (is_some()/is_ok() modelled by option_tests): record the
+                    # condition on the discriminant itself so that it is related to later `match x` tests
+                    if v[0] == 'bin' and v[1] in ('Eq', 'Ne') and v[2][0] == 'discr' and v[3][0] == 'const' and isinstance(v[3][1], int) and len(t['targets']) == 1 and t['targets'][0][0] == 0:
+                        k_ = v[3][1]
+                        false_t, true_t = t['targets'][0][1], t['otherwise']
+                        if v[1] == 'Ne':
+                            false_t, true_t = true_t, false_t
+                        dt = v[2]
+                        alts = []
+                        if self.cond_consistent(path, dt, 'eq', k_):
+                            alts.append((true_t, ('eq', k_)))
+                        if self.cond_consistent(path, dt, 'ne', frozenset({k_})):
+                            alts.append((false_t, ('ne', frozenset({k_}))))
+                        if not alts:
+                            path.end = ('infeasible', bi)
+                            break
+                        for b2, cnd in alts[1:]:
+                            p2 = path.clone()
+                            p2.conds.append((dt, cnd))
+                            work.append((b2, p2))
+                        path.conds.append((dt, alts[0][1]))
+                        bi = alts[0][0]
+                        continue
                     listed = frozenset(val for val, _ in t['targets'])
                     alts = []
                     for val, b2 in t['targets']:
@@ -471,5 +494,26 @@ def inline_pure(F, max_blocks=40, depth=2):
             _d[0] -= 1
         if len(ps) == 1 and not [c for c in ps[0].conds if c[0][0] != 'assert'] and ps[0].ret is not None:
             return ps[0].ret
+        return None
+    return model
+
+
+def option_tests(nm, args, t, path):
+    """Call model: Option::is_some / is_none and Result::is_ok / is_err as tests of the discriminant of the value
+    (None = 0, Some = 1; Ok = 0, Err = 1), so that `x.is_some()` and a later `if let Some(..) = x` are one condition."""
+    base = nm.split('::')[-1]
+    if len(args) == 1 and base in ('is_some', 'is_none') and nm.startswith('std::option::Option'):
+        return ('bin', 'Eq', ('discr', mk_deref(args[0])), ('const', 1 if base == 'is_some' else 0, 'isize'))
+    if len(args) == 1 and base in ('is_ok', 'is_err') and nm.startswith('std::result::Result'):
+        return ('bin', 'Eq', ('discr', mk_deref(args[0])), ('const', 0 if base == 'is_ok' else 1, 'isize'))
+    return None
+
+
+def chain_models(*models):
+    def model(nm, args, t, path):
+        for m in models:
+            r = m(nm, args, t, path)
+            if r is not None:
+                return r
         return None
     return model
